@@ -458,6 +458,18 @@ func cmdCheck(args []string) {
 	var out []string
 	replayDir := filepath.Join(verifRoot, "replays", id)
 	var knownHit []string
+	prio := func(r *oblRun) int {
+		switch {
+		case r.res.Status == "sat" && r.o.Kind == "postcondition":
+			return 0
+		case r.res.Status == "sat" && r.o.Kind == "safety":
+			return 1
+		case r.res.Status == "sat":
+			return 2
+		}
+		return 3
+	}
+	sort.SliceStable(failures, func(i, j int) bool { return prio(failures[i]) < prio(failures[j]) })
 	for _, r := range failures {
 		if kf := isKnown(r.o.Name); kf != nil {
 			knownHit = append(knownHit, fmt.Sprintf("KNOWN-FINDING: property=%s obligation=%s %s", id, r.o.Name, kf.desc))
@@ -588,6 +600,9 @@ func trustedBase(assumptions []string) []string {
 	return tb
 }
 
+var replayBudget = 6
+var replayDone = false
+
 // writeReplay writes the replay file; returns true if the counterexample was reproduced on the real code.
 func writeReplay(P *Program, path, id string, r *oblRun) bool {
 	var b strings.Builder
@@ -607,9 +622,19 @@ func writeReplay(P *Program, path, id string, r *oblRun) bool {
 		for _, k := range ks {
 			fmt.Fprintf(&b, "  %s = %s\n", k, r.res.Model[k])
 		}
-		ok, log := tryReplay(P, id, r)
-		fmt.Fprintf(&b, "replay on real code: %s\n", log)
-		reproduced = ok
+		if replayBudget > 0 && !replayDone {
+			replayBudget--
+			ok, log := tryReplay(P, id, r)
+			fmt.Fprintf(&b, "replay on real code: %s\n", log)
+			reproduced = ok
+			if ok {
+				replayDone = true
+			}
+		} else if replayDone {
+			fmt.Fprintf(&b, "replay on real code: not attempted (another failed obligation of this run was already reproduced on the real code)\n")
+		} else {
+			fmt.Fprintf(&b, "replay on real code: not attempted (replay budget of this run used up)\n")
+		}
 	} else if r.o.ExpectSat {
 		fmt.Fprintf(&b, "vacuity check failed: the query that must be satisfiable is unsat (contract or path became contradictory / unreachable)\n")
 	} else {
